@@ -133,11 +133,11 @@ class Probes:
                 @contextmanager
                 def new_trace(self_):
                     tid = threading.get_ident()
-                    before = self_.top
+                    before = getattr(self_, "top", None)
                     with orig_new_trace(self_) as t:
                         P.traces.append((tid, "enter", t, before))
                         yield t
-                        P.traces.append((tid, "exit", t, self_.top))
+                        P.traces.append((tid, "exit", t, getattr(self_, "top", None)))
 
                 tracer.TraceStack.new_trace = new_trace
                 self.attached["P-trace"] = True
